@@ -308,6 +308,16 @@ def add_pseudo(tree, rng, vidc):
     """randomly decorate compound states with <history> (with default transition) and <initial>"""
     maxsid = max(n['sid'] for n in walk(tree))
     for n in list(walk(tree)):
+        if n['kind'] == 'parallel' and n['kids'] and rng.random() < 0.15:
+            # a history directly below a <parallel>: its completion are the regions (shallow) / everything below (deep)
+            props = [k for k in n['kids'] if k['kind'] in ('state', 'parallel')]
+            if props:
+                deep = rng.random() < 0.5
+                maxsid += 1
+                cands = [d for k in props for d in walk(k) if d['kind'] in ('state', 'parallel', 'final')] if deep else props
+                tgt = rng.choice(cands)
+                body = [('raise', vidc(), rng.choice(EVENTS))] if rng.random() < 0.3 else []
+                n['kids'].insert(rng.randint(0, len(n['kids'])), node('hd' if deep else 'hs', maxsid, trans=[trans(vidc(), targets=[tgt['sid']], body=body)]))
         if n['kind'] in ('state', 'scxml') and any(k['kind'] in ('state', 'parallel', 'final') for k in n['kids']):
             props = [k for k in n['kids'] if k['kind'] in ('state', 'parallel', 'final')]
             if n['kind'] == 'state' and rng.random() < 0.35:
